@@ -735,11 +735,12 @@ All but the first occurrence will be discarded/removed ...""".format(
                 duplicates_to_remove.extend([item] * (c - 1))
 
         # Actually remove all but the first occurrence of duplicate decays
-        for tree in reversed(self._parsed_decays):  # type: ignore[arg-type]
-            val = tree.children[0].children[0].value
+        # (by position: list.remove() would compare trees by value and could drop the first occurrence instead)
+        for i in reversed(range(len(self._parsed_decays))):  # type: ignore[arg-type]
+            val = self._parsed_decays[i].children[0].children[0].value  # type: ignore[index]
             if val in duplicates_to_remove:
                 duplicates_to_remove.remove(val)
-                self._parsed_decays.remove(tree)  # type: ignore[union-attr]
+                del self._parsed_decays[i]  # type: ignore[union-attr]
 
     @property
     def number_of_decays(self) -> int:
